@@ -37,6 +37,8 @@ impl VxStrMap {
     #[verifier::external_body]
     pub fn clear(&mut self) ensures final(self)@ == Map::<Seq<char>, (u64, Vec<u8>)>::empty() { unimplemented!() }
     #[verifier::external_body]
+    pub fn len(&self) -> (r: usize) ensures r == self@.dom().len(), self@.dom().finite() { unimplemented!() }
+    #[verifier::external_body]
     pub fn is_empty(&self) -> (r: bool) ensures r == (self@.dom().len() == 0 && self@.dom().finite()) { unimplemented!() }
 }
 #[verifier::external_body]
